@@ -2,11 +2,10 @@ import Driver.Util
 import Driver.SecAlg
 open Driver
 
-/-- op name → handler. One line per op; each domain lives in its own `Driver/<Domain>.lean`. -/
-def handlers : List (String × Handler) := [
-  ("nasenc", secAlg false),
-  ("nasmac", secAlg true)
-]
+/-- op name → handler. Each domain lives in its own `Driver/<Domain>.lean` and exports `<domain>Handlers`;
+    add one import above and one `++` here. -/
+def handlers : List (String × Handler) :=
+  secAlgHandlers
 
 def step (line : String) : String :=
   match (line.trimAscii.toString.splitOn " ").filter (· ≠ "") with
